@@ -194,6 +194,10 @@ class TRec(Ty):
     def get(self, f, t):
         return self.sort().accessor(0, list(self.fields).index(f))(t)
 
+    def set(self, f, t, value):
+        """the record t with field f replaced by value"""
+        return self.mk(*[(value if g == f else self.get(g, t)) for g in self.fields])
+
 
 class TAbs(Ty):
     """an opaque object type (uninterpreted sort): only contracts of the functions taking it say anything about it"""
